@@ -440,6 +440,9 @@ class Interp:
             raise PyRaise("TypeError", f"{fv.qualname}() takes {len(params)} positional arguments but {len(args)} were given")
         for p, v in zip(params, args):
             env[p] = v
+            A.mark_named(v)
+        for v in kwargs.values():
+            A.mark_named(v)
         if a.vararg is not None:
             env[a.vararg.arg] = tuple(args[len(params):])
         kw = dict(kwargs)
@@ -650,6 +653,8 @@ class Interp:
         """single-path statement execution in the current state"""
         st = cur()
         st.where = f"{frame.fname}:{getattr(s, 'lineno', 0)}"
+        from .state import LAST_SID
+        st.stmt_mark = LAST_SID[0]
         if isinstance(s, ast.Expr):
             if isinstance(s.value, ast.Constant):
                 return  # docstring
@@ -744,6 +749,7 @@ class Interp:
 
     # ------------------------------------------------------------------ assignment
     def assign(self, target, value, frame):
+        A.mark_named(value)
         if isinstance(target, ast.Name):
             frame.env[target.id] = value
             return
@@ -1073,7 +1079,9 @@ class Interp:
         return tuple(out)
 
     def ev_List(self, node, frame):
-        return new_list(self.ev_Tuple(node, frame))
+        items = self.ev_Tuple(node, frame)
+        A.mark_named(items)
+        return new_list(items)
 
     def ev_Set(self, node, frame):
         return frozenset(self.hashable(self.eval(e, frame)) for e in node.elts)
@@ -1162,7 +1170,7 @@ class Interp:
                 return self.lib.value_binop(self, "*", v, -1)
             return sv.neg(v)
         if isinstance(node.op, ast.UAdd):
-            return v
+            return A.copy(v) if isinstance(v, A.Arr) else v       # +a is a new array (numpy.positive), never the operand itself
         if isinstance(node.op, ast.Not):
             if isinstance(v, SV):
                 return sv.not_(v)
@@ -1524,7 +1532,13 @@ class Interp:
             return self.instantiate(fn, args, kwargs)
         if isinstance(fn, LibFunc):
             self.lib_used.add(fn.name)
-            return fn.fn(self, *args, **kwargs)
+            try:
+                return fn.fn(self, *args, **kwargs)
+            except TypeError as e:
+                # the call form (an extra positional / keyword argument) is one the contract does not state: outside the model
+                if "got an unexpected keyword argument" in str(e) or "positional argument" in str(e) or "got multiple values for" in str(e):
+                    raise EngineError(f"{fn.name}: call form without a contract ({e})")
+                raise
         if isinstance(fn, BoundLib):
             self.lib_used.add(fn.name)
             return self.lib.call_method(self, fn, args, kwargs)
